@@ -421,7 +421,8 @@ def run_check(prop, argv=None):
             consume(stream, evaluate(prop, cases))
     extra_cov = {}
     if driver_ok:
-        ex = prop.extra({'tier': tier, 'seed': seed, 'rng': rng, 'known': known_entries})
+        ex = prop.extra({'tier': tier, 'seed': seed, 'rng': rng, 'known': known_entries,
+                         'stream_disagreements': [r for (_s, r) in disagreements]})
         if ex:
             extra_cov = ex.get('coverage', {})
             evaluations += ex.get('evaluations', 0)
